@@ -1324,6 +1324,9 @@ func main() {
 		streamCorpus()
 	case "replay":
 		replay()
+	case "small":
+		// seed = shard index, n = number of shards
+		streamSmall(int(seed), n)
 	case "legacy-apply", "legacy-merge", "legacy-create", "legacy-compose", "legacy-equal", "legacy-bytes", "legacy-limit":
 		streamLegacy(stream, r, n, pfx)
 	default:
